@@ -2,6 +2,8 @@ import SqlModel.Options
 import SqlModel.Generated.ControlIR
 import SqlProofs.OptionsTotal
 import SqlProofs.AccessorSpec
+import SqlModel.Pipeline
+import SqlProofs.SplitNonWs
 /-!
 # C07 — totality: any text and any valid option set gives a result or SQLParseError
 
@@ -31,5 +33,15 @@ theorem get_cases_total : type_of% @getCases_total := @getCases_total
 theorem names_total : type_of% @Sql.Acc.names_total := @Sql.Acc.names_total
 theorem get_parameters_error_iff : type_of% @getParameters_error_iff := @getParameters_error_iff
 theorem get_window_error_iff : type_of% @getWindow_error_iff := @getWindow_error_iff
+
+/-- **lexer ∘ splitter is total**: for every text, tokenizing and statement splitting return (the flat statements `split()` and `parse()`
+start from).  The lexer never raises (C01); the splitter's only raising expression is `value.split()[0]` on a Keyword-typed token, which
+needs a non-space character in the value — and every token of a non-Whitespace type starts with one. -/
+theorem lexSplit_total (s : Array Cp) : ∃ sts, lexSplit s = .ok sts := lexSplit_ok s
+
+/-- hence `sqlparse.split(text)` returns for every text -/
+theorem split_total (s : Array Cp) : ∃ ps, split s = .ok ps := by
+  obtain ⟨sts, h⟩ := lexSplit_ok s
+  exact ⟨sts.map (pyStrip ∘ stmtText), by simp [split, h, Except.map]⟩
 
 end Sql.C07
